@@ -1,21 +1,21 @@
-\* C02 reciprocity -- quick
+\* C04 linearity in (source, background) -- quick
 CONSTANTS
   ShiftStyle = "pad" LevelStyle = "match" TruncStyle = "exact" AnalyticStyle = "outer" BCubic = "plus"
   Sizes = {302, 403}
-  Cells = {11, 23}
-  Halos = {99, 0, 1, 2, 3, 4}
-  ModeSet = {202, 402, 1212}
+  Cells = {23}
+  Halos = {99, 0, 3}
+  ModeSet = {202, 1212}
   NZs = {3}
   LevelLists = "single"
   Tabs = {1}
-  Analytic = {FALSE}
-  Family = "recip"
+  Analytic = {FALSE, TRUE}
+  Family = "linear"
 INIT Init
 NEXT Next
 CHECK_DEADLOCK FALSE
 INVARIANT StagesAgree
 INVARIANT ShapeOrError
-INVARIANT ErrorsAreDeclared
-INVARIANT Recip
-INVARIANT RegularRun
+INVARIANT Superposition
+INVARIANT BackgroundOnlyOffsetsConc
+INVARIANT FootprintIgnoresValues
 INVARIANT Emit
